@@ -544,6 +544,61 @@ static void run_random(long long ops, int maxn, vh_rng *r) {
 	tree_free_checked();
 }
 
+/* ---- "intkeys" mode (C12/C14): keys and values are small integers stored directly in the pointers, so the key 0 and one value per
+ * tree are the NULL pointer - legal data that the notifiers must receive like any other.  Model: present[k] = value id.  After each call
+ * the multiset of (notifier kind, pointer) events must equal the expectation exactly. */
+#define IK_U 12
+typedef struct { int isval; intptr_t p; } IkEv;
+static IkEv ik_ev[64]; static int ik_nev; static long long st_ik_ops, st_ik_null_events, st_ik_events;
+static void ik_kd(ppointer p) { if (ik_nev < 64) { ik_ev[ik_nev].isval = 0; ik_ev[ik_nev].p = (intptr_t)p; } ik_nev++; }
+static void ik_vd(ppointer p) { if (ik_nev < 64) { ik_ev[ik_nev].isval = 1; ik_ev[ik_nev].p = (intptr_t)p; } ik_nev++; }
+static pint ik_cmp(pconstpointer a, pconstpointer b, ppointer d) { intptr_t x = (intptr_t)a, y = (intptr_t)b; (void)d; return x < y ? -1 : x > y ? 1 : 0; }
+static int ik_expect(const char *op, const IkEv *want, int nwant) {
+	int i, j, used[64] = { 0 };
+	for (i = 0; i < ik_nev && i < 64; i++) { st_ik_events++; if (ik_ev[i].p == 0) st_ik_null_events++; }
+	if (ik_nev != nwant) { viol(14, "destroy-count", "integer-pointer keys: %s caused %d notifier calls, %d expected (NULL is a legal key/value)", op, ik_nev, nwant); return 0; }
+	for (i = 0; i < nwant; i++) { for (j = 0; j < ik_nev; j++) if (!used[j] && ik_ev[j].isval == want[i].isval && ik_ev[j].p == want[i].p) { used[j] = 1; break; }
+		if (j == ik_nev) { viol(14, want[i].p == 0 ? "null-object-not-destroyed" : "not-destroyed", "integer-pointer keys: %s did not pass %s %ld to its notifier", op, want[i].isval ? "value" : "key", (long)want[i].p); return 0; } }
+	return 1;
+}
+static void run_intkeys(long long ops, int cfg, vh_rng *r) {
+	int kn = !(cfg & 8), vn = !(cfg & 16); long long n; int present[IK_U], k, i; intptr_t val[IK_U], nextv = 0; PTree *t;
+	cur_op = "intkeys"; cur_children = -1;
+	t = p_tree_new_full((PTreeType)g_type, ik_cmp, NULL, kn ? ik_kd : NULL, vn ? ik_vd : NULL);
+	for (k = 0; k < IK_U; k++) present[k] = 0;
+	for (n = 0; n < ops && vh_nviol < vh_max_viol; n++) {
+		int op = (int)vh_below(r, 100); IkEv want[2 * IK_U]; int nw = 0; st_ik_ops++; st_ops++;
+		k = (int)vh_below(r, IK_U); ik_nev = 0;
+		if (op < 55) {
+			intptr_t v = nextv++;
+			if (present[k]) { if (kn) { want[nw].isval = 0; want[nw++].p = k; } if (vn) { want[nw].isval = 1; want[nw++].p = val[k]; } }
+			p_tree_insert(t, (ppointer)(intptr_t)k, (ppointer)v);
+			if (!ik_expect(present[k] ? "replace" : "insert", want, nw)) break;
+			present[k] = 1; val[k] = v;
+		} else if (op < 90) {
+			pboolean rc;
+			if (present[k]) { if (kn) { want[nw].isval = 0; want[nw++].p = k; } if (vn) { want[nw].isval = 1; want[nw++].p = val[k]; } }
+			rc = p_tree_remove(t, (ppointer)(intptr_t)k);
+			if ((rc != FALSE) != (present[k] != 0)) { viol(12, "remove-return", "integer-pointer keys: remove(%d) returned %d, key %s", k, rc, present[k] ? "present" : "absent"); break; }
+			if (!ik_expect("remove", want, nw)) break;
+			present[k] = 0;
+		} else if (op < 97) {
+			ppointer got = p_tree_lookup(t, (ppointer)(intptr_t)k);
+			if (present[k] ? got != (ppointer)val[k] : got != NULL) { viol(12, "lookup-mismatch", "integer-pointer keys: lookup(%d) returned %p, model %s%ld", k, got, present[k] ? "" : "absent ", present[k] ? (long)val[k] : 0L); break; }
+			if (!ik_expect("lookup", want, 0)) break;
+		} else {
+			for (i = 0; i < IK_U; i++) if (present[i]) { if (kn) { want[nw].isval = 0; want[nw++].p = i; } if (vn) { want[nw].isval = 1; want[nw++].p = val[i]; } present[i] = 0; }
+			p_tree_clear(t);
+			if (!ik_expect("clear", want, nw)) break;
+			if (p_tree_get_nnodes(t) != 0) { viol(12, "nnodes", "integer-pointer keys: %d nodes after clear", p_tree_get_nnodes(t)); break; }
+			nextv = 0;        /* the next value inserted is the NULL pointer again */
+		}
+	}
+	{ IkEv want[2 * IK_U]; int nw = 0; ik_nev = 0;
+	  for (i = 0; i < IK_U; i++) if (present[i]) { if (kn) { want[nw].isval = 0; want[nw++].p = i; } if (vn) { want[nw].isval = 1; want[nw++].p = val[i]; } }
+	  p_tree_free(t); if (vh_nviol < vh_max_viol) ik_expect("free", want, nw); }
+}
+
 int main(int argc, char **argv) {
 	const char *mode = vh_arg(argc, argv, "--mode", "random");
 	uint64_t seed = (uint64_t)vh_argi(argc, argv, "--seed", 1);
@@ -568,15 +623,16 @@ int main(int argc, char **argv) {
 	shset = calloc(shcap, 8);
 	if (!strcmp(mode, "exhaust")) run_exhaust(L, first, &r);
 	else if (!strcmp(mode, "perm")) run_perm(n, first, &r);
+	else if (!strcmp(mode, "intkeys")) { int rep; for (rep = 0; rep < 200 && vh_nviol < vh_max_viol; rep++) { run_intkeys(ops / 200 + 1, cfg, &r); st_hist++; } }
 	else run_random(ops, maxn, &r);
 	printf("{\"ev\":\"sample\",\"tree\":\"%s\",\"mode\":\"%s\",\"cfg\":%d,\"last_history_ops\":\"%s\"}\n", TNAME[g_type], mode, cfg, oplog);
 	for (i = 0; i < QN; i++) free(quar[i]);
 	p_libsys_shutdown();
 	printf("{\"ev\":\"stats\",\"mode\":\"%s\",\"tree\":\"%s\",\"cfg\":%d,\"ops\":%lld,\"histories\":%lld,\"full_checks\":%lld,\"distinct_shapes\":%zu,"
 	       "\"stop_traversals\":%lld,\"inserts\":%lld,\"replaces\":%lld,\"remove_hit\":%lld,\"remove_miss\":%lld,\"clears\":%lld,\"lookups\":%lld,"
-	       "\"compares\":%lld,\"destroy_events\":%lld,\"max_n\":%d,\"max_depth\":%d,\"avl_checked\":%lld,\"rb_checked\":%lld,\"viol\":%d,\"wall\":%.2f,\"removals\":[",
+	       "\"compares\":%lld,\"destroy_events\":%lld,\"intkey_ops\":%lld,\"intkey_notifier_calls\":%lld,\"intkey_notifier_calls_with_null\":%lld,\"max_n\":%d,\"max_depth\":%d,\"avl_checked\":%lld,\"rb_checked\":%lld,\"viol\":%d,\"wall\":%.2f,\"removals\":[",
 	       mode, TNAME[g_type], cfg, st_ops, st_hist, st_full, shcnt, st_stops, st_insert, st_replace, st_remove_hit, st_remove_miss, st_clear,
-	       st_lookups, ncompare, st_destroy_events, st_maxn, st_maxdepth, st_avl_checked, st_rb_colourings_checked, vh_nviol, vh_now() - t0);
+	       st_lookups, ncompare, st_destroy_events, st_ik_ops, st_ik_events, st_ik_null_events, st_maxn, st_maxdepth, st_avl_checked, st_rb_colourings_checked, vh_nviol, vh_now() - t0);
 	for (i = 0; i < 3; i++) { printf("%s[", i ? "," : ""); for (j = 0; j < 4; j++) printf("%s%lld", j ? "," : "", st_rm[i][j]); printf("]"); }
 	printf("]}\n");
 	return 0;
